@@ -279,6 +279,8 @@ theorem decDUID_bound {data : Bytes} {d : DUID} (h : decDUID data = .ok d) :
   · cases h
   · have s1 : Sub (Lexer.new data).read16.2 (Lexer.new data) := by sub_tac
     split at h
+    · cases h
+    split at h
     · have := fin_ok h; subst this
       simp only [sizeDUID, readAll_fst]
       have : Sub (Lexer.new data).read16.2.read16.2.read32.2 (Lexer.new data) := by sub_tac
@@ -319,9 +321,11 @@ theorem parseNTPSub_bound {P : Bytes → Prop} {K : Nat} (hK : 1 ≤ K) (hL : La
     · split at h
       · split at h
         · rename_i lb hlb
-          injection h with h; subst h
-          have := hL data hP lb hlb
-          simp only [sizeNTPSub]; omega
+          split at h
+          · cases h
+          · injection h with h; subst h
+            have := hL data hP lb hlb
+            simp only [sizeNTPSub]; omega
         · cases h
         · cases h
       · injection h with h; subst h
@@ -653,8 +657,8 @@ theorem lenNestOpt_fst : ∀ o : Opt6, (lenNestOpt o).1 = (encOpt o).length
   | .iaprefix a b p os => by
     simp only [lenNestOpt, encOpt, lenNestOpts_fst os, List.length_append, encDur_length]
     cases p with
-    | none => simp
-    | some q => obtain ⟨n, ip⟩ := q; simp [write16_length]
+    | none => simp [encPfx]
+    | some q => obtain ⟨n, ip⟩ := q; simp [encPfx, write16_length]
   | .fourRD os => by simp only [lenNestOpt, encOpt, lenNestOpts_fst os]
   | .relayMsg m => by simp only [lenNestOpt, encOpt, lenNest6_fst m]
   | .clientID _ => by simp only [lenNestOpt]
